@@ -751,6 +751,10 @@ static int corr(uint64_t seed, const std::string& tier, const std::string& outdi
             // SKIP / SKIP100 ... ENDSKIP blocks between keywords, SKIP300 (an ordinary keyword
             // under the default ParseContext), PATHS + `$ALIAS` in INCLUDE paths
             bool usePaths = r.coin(1, 5);
+            // SKIP / ENDSKIP lines inside the records of a keyword are outside the model (the skipped text
+            // becomes part of the record view): a deck with such lines gets no truncated INCLUDE file,
+            // which could leave a keyword open in front of them
+            bool hasSkipLine = false;
             {
                 int nSpecial = r.range(0, 2);
                 for (int q = 0; q < nSpecial; ++q) {
@@ -783,9 +787,10 @@ static int corr(uint64_t seed, const std::string& tier, const std::string& outdi
                         if (!r.coin(1, 12)) sp += r.coin() ? "ENDSKIP\n" : "endskip  text -- c\n";
                         if (r.coin(1, 5)) sp += "ENDSKIP\n";                       // stray ENDSKIP: ignored
                         sink.count("deck.special.skip");
+                        hasSkipLine = true;
                         break; }
                     case 3: sp = "SKIP300\n"; sink.count("deck.special.skip300"); break;
-                    default: sp = "ENDSKIP\n"; sink.count("deck.special.endskip");
+                    default: sp = "ENDSKIP\n"; hasSkipLine = true; sink.count("deck.special.endskip");
                     }
                     size_t at = r.below(parts.size() + 1);
                     parts.insert(parts.begin() + at, sp);
@@ -827,7 +832,7 @@ static int corr(uint64_t seed, const std::string& tier, const std::string& outdi
                         content += std::string(r.coin() ? "ENDINC\n" : "endinc -- c\n") + (r.coin() ? " junk 'unbalanced / \n" : "") + (r.coin() ? "WATER\nGAS\n" : "");
                         sink.count("deck.special.endinc");
                     }
-                    if (r.coin(1, 8) && content.size() > 4) {
+                    if (r.coin(1, 8) && content.size() > 4 && !hasSkipLine) {
                         // the file ends anywhere: inside a record (the parser throws since d37f2f297),
                         // between the records of a keyword (it goes on in the including file), inside a word
                         content.resize(r.range(1, static_cast<int>(content.size()) - 1));
